@@ -60,7 +60,7 @@ def _apply_rewrites(text, rewrites, what, log):
         else:
             found = text.count(old)
         if (count is None and found < 1) or (count is not None and found != count):
-            raise LostAnchor("%s: rewrite anchor %r found %d times, expected %d" % (what, old[:60], found, count))
+            raise LostAnchor("%s: rewrite anchor %r found %d times, expected %s" % (what, old[:60], found, count if count is not None else ">=1"))
         text = re.sub(old, new, text) if is_re else text.replace(old, new)
         log.append("%s: %r -> %r (x%d)" % (what, old[:70], new[:70], found))
     return text
@@ -135,6 +135,80 @@ def _ghost_only(text):
     return True
 
 
+def _split_top_commas(text, mask, n):
+    """Split off the first n top-level comma-separated arguments; return (args, rest_text, rest_mask)."""
+    args, depth, start = [], 0, 0
+    k = 0
+    while k < len(mask) and len(args) < n:
+        ch = mask[k]
+        if ch in "([{":
+            depth += 1
+        elif ch in ")]}":
+            depth -= 1
+        elif ch == "," and depth == 0:
+            args.append(text[start:k].strip())
+            start = k + 1
+        k += 1
+    if len(args) != n:
+        raise LostAnchor("combinator call: expected %d leading arguments" % n)
+    return args, text[start:], mask[start:]
+
+
+def inline_combinators(text, fn_id, expected, log):
+    """Mechanical beta-reduction of Parser::peek_while / peek_while_kind / parse_separated_list at their call sites:
+    the call is replaced by the combinator's own body (frame check `peek_while_is_the_plain_loop` pins that body) with the
+    closure inlined.  `FnMut(&mut Parser)` closures are outside Verus; the loops are not.  A `return ControlFlow::Break(())` /
+    `return ControlFlow::Continue(())` inside a peek_while closure becomes `break` / `continue` of the inlined loop."""
+    count = 0
+    while True:
+        mask = mask_source(text)
+        m = re.search(r"\b(\w+)\s*\.\s*(peek_while_kind|peek_while|parse_separated_list)\s*\(", mask)
+        if not m:
+            break
+        recv, comb = m.group(1), m.group(2)
+        op = m.end() - 1
+        cl = match_close(mask, op)
+        nlead = {"peek_while": 0, "peek_while_kind": 1, "parse_separated_list": 2}[comb]
+        lead, rest, rmask = _split_top_commas(text[op + 1:cl], mask[op + 1:cl], nlead)
+        rest_s = rest.strip()
+        if rest_s.endswith(","):
+            rest_s = rest_s[:-1].rstrip()
+        if rest_s.startswith("|"):
+            j = rest_s.index("|", 1)
+            params = [x.strip() for x in rest_s[1:j].split(",")]
+            body = rest_s[j + 1:].strip()
+            if params[0] != recv:
+                raise LostAnchor("%s: closure parameter %r differs from the receiver %r" % (fn_id, params[0], recv))
+        elif re.match(r"^[\w:]+$", rest_s):
+            params = [recv, "kind"]
+            body = "{ %s(%s); }" % (rest_s, recv)
+        else:
+            raise LostAnchor("%s: unsupported combinator argument %r" % (fn_id, rest_s[:40]))
+        if comb == "peek_while":
+            if len(params) != 2:
+                raise LostAnchor("%s: peek_while closure must take (parser, kind)" % fn_id)
+            body = body.replace("return ControlFlow::Break(())", "break").replace("return ControlFlow::Continue(())", "continue")
+            if re.search(r"\breturn\b", mask_source(body)):
+                raise LostAnchor("%s: `return` inside a peek_while closure" % fn_id)
+            new = ("while let Some(%s) = %s.peek() { let __cf: ControlFlow<()> = %s; match __cf { ControlFlow::Break(()) => break, ControlFlow::Continue(()) => {} } }"
+                   % (params[1], recv, body))
+        else:
+            if re.search(r"\breturn\b", mask_source(body)):
+                raise LostAnchor("%s: `return` inside a %s closure" % (fn_id, comb))
+            if comb == "peek_while_kind":
+                new = "while let Some(__kind) = %s.peek() { if __kind != %s { break; } %s }" % (recv, lead[0], body)
+            else:
+                new = ("if let Some(__kind0) = %s.peek() { if __kind0 == %s { %s.bump(%s); } }\n%s\n"
+                       "while let Some(__kind) = %s.peek() { if __kind != %s { break; } { %s.bump(%s); %s } }"
+                       % (recv, lead[0], recv, lead[1], body, recv, lead[0], recv, lead[1], body))
+        text = text[:m.start()] + new + text[cl + 1:]
+        count += 1
+        log.append("%s: %s call inlined (closure beta-reduced into the combinator's loop)" % (fn_id, comb))
+    if count != expected:
+        raise LostAnchor("%s: %d combinator call sites found, unit expects %d" % (fn_id, count, expected))
+    return text
+
+
 def build_fn(item, spec, canary, log):
     """Return (text, clause_marks, canary_marks); marks are (line offset within text, info)."""
     fn_id = spec.get("id") or (("%s::" % spec["container_name"]) if spec.get("container_name") else "") + spec["name"]
@@ -142,6 +216,8 @@ def build_fn(item, spec, canary, log):
     for pat, rep in GLOBAL_DROPS:
         text = re.sub(pat, rep, text)
     text = _apply_rewrites(text, spec.get("rewrites"), fn_id, log)
+    if spec.get("inline_combinators") is not None:
+        text = inline_combinators(text, fn_id, spec["inline_combinators"], log)
     mask = mask_source(text)
     body_open = _loop_body_open(mask, 0) if item.kind == "fn" else None
     if item.kind != "fn":
@@ -176,10 +252,14 @@ def build_fn(item, spec, canary, log):
             rt, where = rt[:wm.start()], rt[wm.start():]
         sig = sig[:arrow] + "-> (%s: %s) %s" % (ret, rt.strip(), where)
     # hints (ghost code) inside the body
+    loop_hints = []
     for h in spec.get("hints", []):
         where, anchor, proof = h
         if not _ghost_only(proof):
             raise ValueError("%s: hint is not ghost-only code: %r" % (fn_id, proof[:80]))
+        if where in ("loop_body_start", "loop_body_end"):
+            loop_hints.append(h)      # keyed by loop ordinal, not by statement text: survives edits of the loop body
+            continue
         if where == "body_start":
             body = "{\n" + proof + "\n" + body[1:]
             continue
@@ -221,6 +301,15 @@ def build_fn(item, spec, canary, log):
         inserts.append((o, "\n" + "".join(parts)))
         if canary:
             inserts.append((o + 1, "\n%sproof { assert(false); } // canary\n" % (MARK % _reg(("canary", "loop%d" % li, "")))))
+    for where, li, proof in loop_hints:
+        if li >= len(kws):
+            raise LostAnchor("%s: hint for loop %d, only %d loops" % (fn_id, li, len(kws)))
+        o = _loop_body_open(mbody, kws[li])
+        if where == "loop_body_start":
+            inserts.append((o + 1, "\n" + proof + "\n"))
+        else:
+            inserts.append((match_close(mbody, o), "\n" + proof + "\n"))
+    # stable order: for equal positions the loop contract (inserted before `{`) must come before body-start text
     for pos, t in sorted(inserts, key=lambda x: -x[0]):
         body = body[:pos] + t + body[pos:]
     # clauses
